@@ -1,6 +1,7 @@
 import ModVerif.Drv.MainLoop
 import ModVerif.Drv.Zip
 import ModVerif.Drv.Dirhash
+import ModVerif.Drv.GenZip
 open ModVerif.Drv
 
-def main : IO Unit := runMain [("zip", Zip.handle), ("dirhash", Dirhash.handle)]
+def main : IO Unit := runMain [("zip", Zip.handle), ("dirhash", Dirhash.handle), ("gzip", GenZip.handle)]
